@@ -1448,7 +1448,7 @@ class Interp:
         if isinstance(base, (list, dict, tuple, str, set, frozenset, bytes, range)) or type(base).__module__ in ("collections", "builtins"):
             if isinstance(base, dict) and name in ("get", "pop", "setdefault", "__getitem__"):
                 return _DictMethod(self, base, name)
-            if isinstance(base, list) and name in ("index", "remove", "count", "sort"):
+            if isinstance(base, list) and name in ("index", "remove", "count", "sort", "pop", "insert"):
                 return _ListMethod(self, base, name)
             try:
                 return getattr(base, name)
@@ -1941,6 +1941,17 @@ class _ListMethod:
                 if it.truth(it.compare(ast.Eq(), x, a[0])):
                     n += 1
             return n
+        if self.name in ("pop", "insert"):
+            # numpy integer scalars (rank-0 integer arrays here) are valid list indices
+            args = list(a)
+            if args and isinstance(args[0], STensor) and args[0].rank == 0 and args[0].dtype == T.INT:
+                args[0] = args[0].at([])
+            if args and not isinstance(args[0], int):
+                raise Unsupported("list.%s with a symbolic index" % self.name)
+            try:
+                return getattr(self.lst, self.name)(*args)
+            except IndexError as e:
+                raise PyExc("IndexError", e.args)
         if self.name == "sort":
             res = it.builtins["sorted"](self.lst, **kw)
             self.lst[:] = res
